@@ -1,11 +1,18 @@
 (* C05 — HyperLogLog accuracy and totality of Update. Statements only.
    The accuracy clause is statistical over the hash; what is decided here by proof:
    totality of Update for m >= 128, its refutation for m <= 64, and the refutation of
-   "an empty sketch counts about zero" (no small-range correction). *)
+   "an empty sketch counts about zero" (no small-range correction); the estimator never goes
+   down as elements arrive (C05_update_never_lowers_the_estimate, C05_history_never_lowers_it: the
+   harmonic sum only shrinks), and -- the recorded accuracy finding as a theorem over ALL hash
+   functions and ALL histories -- only registers 1..65 are ever written, so the harmonic sum of a
+   sketch with m >= 66 registers is at least m - 65 and every answer consistent with the
+   estimator's formula is bounded by about alpha_m m^2 / (m - 65), however many distinct elements
+   were inserted (C05_registers_outside_1_65_stay_zero, C05_harmonic_sum_lower_bound,
+   C05_estimate_bounded_refutes_accuracy). *)
 From GX.Model Require Import Base HLL.
 From GX.Proofs Require Import ListLemmas HLLProofs.
 From GX.Model Require Import Redis RedisHLL.
-From GX.Proofs Require Import RedisHLLRefine.
+From GX.Proofs Require Import RedisHLLRefine HLLApi HLLEstimate.
 
 (* for every hash function: with m = 2^p >= 128 registers, Update never fails *)
 Theorem C05_update_total_partial : forall hash s x,
@@ -68,3 +75,47 @@ Print Assumptions C05_update_refuted_small_m.
 Print Assumptions C05_update_refuted_m1.
 Print Assumptions C05_empty_refuted.
 Print Assumptions C05_redis_update_total.
+
+(* the estimate grows: an Update (any index function) never increases the harmonic sum
+   sum_j 2^(-register_j) = hll_hsum_num / 2^255, so alpha m^2 / sum never decreases *)
+Theorem C05_update_never_lowers_the_estimate : forall hic s x s',
+  hwf s -> hll_update hic s x = Ok s' -> hll_hsum_num s' <= hll_hsum_num s.
+Proof. exact update_hsum_le. Qed.
+Print Assumptions C05_update_never_lowers_the_estimate.
+Theorem C05_history_never_lowers_it : forall hic s xs s',
+  hwf s -> upd_all hic s xs = Ok s' -> hll_hsum_num s' <= hll_hsum_num s.
+Proof. exact updates_hsum_le. Qed.
+Print Assumptions C05_history_never_lowers_it.
+
+(* ACCURACY REFUTED for every hash function and every history (recorded finding): the code's
+   register index is 1 + leading zeros, so registers 0 and 66.. of a sketch built by updates stay 0 *)
+Theorem C05_registers_outside_1_65_stay_zero : forall hash m al s0 xs s,
+  hll_new m al = Ok s0 -> upd_all (hic_of hash) s0 xs = Ok s ->
+  forall j, (j = 0 \/ 65 < j)%nat -> nth j (h_regs s) 0 = 0.
+Proof. exact regs_outside_stay_zero. Qed.
+Print Assumptions C05_registers_outside_1_65_stay_zero.
+Theorem C05_harmonic_sum_lower_bound : forall hash m al s0 xs s,
+  66 <= m -> hll_new m al = Ok s0 -> upd_all (hic_of hash) s0 xs = Ok s ->
+  (m - 65) * 2 ^ 255 <= hll_hsum_num s.
+Proof. exact harmonic_sum_lower_bound. Qed.
+Print Assumptions C05_harmonic_sum_lower_bound.
+(* hence every answer c that is consistent with the estimator (what the correspondence checks of
+   Count, for all four flag combinations) satisfies c <= ~ alpha_m m^2 / (m - 65) + 1/2, whatever
+   the number of distinct elements inserted: alpha_m = a1/a2, guard = 2^40 *)
+Theorem C05_estimate_bounded_refutes_accuracy : forall hash m al s0 xs s wc wr c,
+  66 <= m -> hll_new m al = Ok s0 -> upd_all (hic_of hash) s0 xs = Ok s ->
+  hll_count_check m (hll_hsum_num s) (2 ^ 255) wc wr c = 1 ->
+  (2 * c - 1) * snd (hll_alpha m) * (m - 65) * guard <= 2 * fst (hll_alpha m) * m * m * (guard + 1).
+Proof. exact estimate_bounded. Qed.
+Print Assumptions C05_estimate_bounded_refutes_accuracy.
+(* concretely: with 1024 registers the bound admits 788 and excludes 789; and the premises are
+   met by a concrete run in which the harmonic sum strictly shrinks *)
+Example C05_bound_instances :
+  ((2 * 788 - 1) * snd (hll_alpha 1024) * (1024 - 65) * guard <=? 2 * fst (hll_alpha 1024) * 1024 * 1024 * (guard + 1)) = true /\
+  ((2 * 789 - 1) * snd (hll_alpha 1024) * (1024 - 65) * guard <=? 2 * fst (hll_alpha 1024) * 1024 * 1024 * (guard + 1)) = false /\
+  exists s0 s, hll_new 128 0 = Ok s0 /\ upd_all (hic_of (fun x => (3 + N.of_nat (length x)) * 2 ^ 26)) s0 [[1]; [2; 3]; []] = Ok s /\
+               (hll_hsum_num s <? hll_hsum_num s0) = true.
+Proof.
+  split; [vm_compute; reflexivity|]. split; [vm_compute; reflexivity|].
+  eexists. eexists. split; [reflexivity|]. split; [vm_compute; reflexivity|vm_compute; reflexivity].
+Qed.
